@@ -2,8 +2,8 @@
 //
 // The driver never judges.  For every byte string TLC enumerated (initial states of MCRlp with
 // mode = "bytes") and for seeded longer strings built from the grammar (valid long forms and
-// targeted mutations of them) it calls the REAL decoder into interface{}, []byte, uint64, uint32,
-// uint8, *big.Int and bool plus the raw scanners Split / CountValues, and logs value-or-error per
+// targeted mutations of them) it calls the REAL decoder into interface{}, []byte, string, [1]byte, [2]byte,
+// uint64, uint32, uint8, *big.Int, bool and a two-field struct plus the raw scanners Split / CountValues, and logs value-or-error per
 // target.  For every value TLC enumerated (mode = "value") and seeded integers it calls the REAL
 // encoder and logs the bytes.  TraceRlp.tla requires each logged result to equal what Rlp.tla says.
 // A panic of the codec is logged as "panic", which no trace action consumes.
@@ -140,6 +140,41 @@ func decodeRow(bs []byte, src string) row {
 			r["bool"] = yes([]byte{1})
 		} else {
 			r["bool"] = yes(nil)
+		}
+	})
+	guard(r, "string", func() {
+		var v string
+		if err := rrlp.DecodeBytes(cp(), &v); err != nil {
+			r["str"] = no()
+		} else {
+			r["str"] = yes([]byte(v))
+		}
+	})
+	guard(r, "[1]byte", func() {
+		var v [1]byte
+		if err := rrlp.DecodeBytes(cp(), &v); err != nil {
+			r["arr1"] = no()
+		} else {
+			r["arr1"] = yes(v[:])
+		}
+	})
+	guard(r, "[2]byte", func() {
+		var v [2]byte
+		if err := rrlp.DecodeBytes(cp(), &v); err != nil {
+			r["arr2"] = no()
+		} else {
+			r["arr2"] = yes(v[:])
+		}
+	})
+	guard(r, "struct", func() {
+		var v struct {
+			A uint64
+			B []byte
+		}
+		if err := rrlp.DecodeBytes(cp(), &v); err != nil {
+			r["pair"] = row{"ok": false, "a": emptyInts, "b": emptyInts}
+		} else {
+			r["pair"] = row{"ok": true, "a": ints(minimalBE(v.A)), "b": ints(v.B)}
 		}
 	})
 	guard(r, "Split", func() {
